@@ -810,3 +810,212 @@ Proof.
   intros l Hl k Hk. rewrite (wf_kinds_span l k Hl Hk). rewrite (cfg_ok_eq _ (wf_kinds_in l k Hl Hk) eq_refl).
   exact (multi_producer_exactly_once okc eq_refl eq_refl eq_refl eq_refl).
 Qed.
+
+(* ---------- the history buffer over time: monotone <-> the buffer statements only read ---------- *)
+Lemma erun_app c a b s : erun c (a ++ b) s = erun c b (erun c a s).
+Proof. unfold erun. apply fold_left_app. Qed.
+
+Lemma eproj_app a b : eproj (a ++ b) = eproj a ++ eproj b.
+Proof. unfold eproj. apply flat_map_app. Qed.
+
+Lemma set_hist_same s : set_hist s (g_hist s) = s.
+Proof. destruct s; reflexivity. Qed.
+
+Lemma is_prefix_refl a : is_prefix a a.
+Proof. exists []. symmetry. apply app_nil_r. Qed.
+
+Lemma is_prefix_trans a b d : is_prefix a b -> is_prefix b d -> is_prefix a d.
+Proof. intros (x & ->) (y & ->). exists (x ++ y). symmetry. apply app_assoc. Qed.
+
+Lemma is_prefix_nil a : is_prefix a [] -> a = [].
+Proof. intros (x & H). symmetry in H. apply app_eq_nil in H. exact (proj1 H). Qed.
+
+Lemma is_prefix_firstn a k : is_prefix a (firstn k a) -> firstn k a = a.
+Proof.
+  intros (x & H). assert (length (firstn k a) <= length a) as Hl by (rewrite firstn_length; lia).
+  rewrite H, app_length in Hl. destruct x as [|y x]; [rewrite app_nil_r in H; exact H|cbn [length] in Hl; lia].
+Qed.
+
+(* a statement under which the history stays prefix-ordered leaves it (and the moved-out frames) as they were *)
+Lemma bufop_monotone_id o h : is_prefix h (fst (bufop_apply o h [])) -> bufop_apply o h [] = (h, []).
+Proof.
+  destruct o as [| | | |k]; cbn [bufop_apply fst]; intros H; try reflexivity.
+  - rewrite (is_prefix_nil _ H). reflexivity.
+  - rewrite (is_prefix_nil _ H). reflexivity.
+  - rewrite (is_prefix_nil _ H). reflexivity.
+  - rewrite (is_prefix_firstn _ _ H). reflexivity.
+Qed.
+
+Lemma HistMonotone_init c n m ops l a : HistMonotone c n m ops (l ++ [a]) -> HistMonotone c n m ops l.
+Proof.
+  intros H s1 s2 s3 E. apply (H s1 s2 (s3 ++ [a])). rewrite E, <- !app_assoc. reflexivity.
+Qed.
+
+(* a run whose history is monotone IS a run of the stream model on the same schedule (the buffer statements stutter) *)
+Lemma monotone_run_eq c n m ops : forall sched, HistMonotone c n m ops sched ->
+  e_st (efinal c n m ops sched) = final c n m (eproj sched) /\ e_taken (efinal c n m ops sched) = [].
+Proof.
+  induction sched as [|a l IH] using rev_ind; intros H; [split; reflexivity|].
+  destruct (IH (HistMonotone_init _ _ _ _ _ _ H)) as (Est & Etk).
+  unfold efinal in *. rewrite erun_app. cbn [erun fold_left]. rewrite eproj_app. unfold final in *. rewrite run_app.
+  destruct a as [a'|]; cbn [estep eproj flat_map app run fold_left e_st e_taken].
+  - rewrite Est. split; [reflexivity|exact Etk].
+  - destruct (e_ops (erun c l (einit c n m ops))) as [|o r] eqn:Eo; [split; assumption|].
+    cbn [e_st e_taken].
+    assert (is_prefix (g_hist (e_st (erun c l (einit c n m ops))))
+                      (fst (bufop_apply o (g_hist (e_st (erun c l (einit c n m ops)))) []))) as Hp.
+    { specialize (H l [EB] [] eq_refl). unfold ehist, efinal in H. rewrite erun_app in H.
+      cbn [erun fold_left estep] in H. rewrite Eo, Etk in H. exact H. }
+    rewrite Etk. rewrite (bufop_monotone_id _ _ Hp). cbn [fst snd]. rewrite set_hist_same. split; [exact Est|reflexivity].
+Qed.
+
+Theorem end_of_run_exactly_once : forall (c : cfg),
+  c_p c = RecThenPub -> c_s c = SubThenSnap -> c_f c = FilterGtLast -> c_cap c = None ->
+  forall (ops : list bufop) (n m : nat) (sched : list eactor) (i : nat) (x : sub),
+  HistMonotone c n m ops sched ->
+  nth_error (g_subs (e_st (efinal c n m ops sched))) i = Some x -> attached x = true ->
+  ExactlyOnce c n (e_st (efinal c n m ops sched)) x.
+Proof.
+  intros c H1 H2 H3 H4 ops n m sched i x Hm. destruct (monotone_run_eq c n m ops sched Hm) as (E & _). rewrite E.
+  apply exactly_once_thm; assumption.
+Qed.
+
+(* the stream model never shrinks the history ... *)
+Lemma step_hist_grows c s a : is_prefix (g_hist s) (g_hist (step c s a)).
+Proof.
+  destruct a as [|i|]; cbn [step]; try apply is_prefix_refl.
+  destruct (g_prog s) as [|[k|k] r]; cbn [g_hist]; try apply is_prefix_refl. exists [k]. reflexivity.
+Qed.
+
+(* ... and neither do buffer statements that only read *)
+Lemma estep_reads_grows c s a : buffer_ops_ok (e_ops s) = true ->
+  buffer_ops_ok (e_ops (estep c s a)) = true /\ is_prefix (g_hist (e_st s)) (g_hist (e_st (estep c s a))).
+Proof.
+  intros Hk. destruct a as [a'|]; cbn [estep e_ops e_st].
+  - split; [exact Hk|apply step_hist_grows].
+  - destruct (e_ops s) as [|o r] eqn:Eo; [rewrite Eo; split; [reflexivity|apply is_prefix_refl]|].
+    cbn [buffer_ops_ok forallb] in Hk. apply andb_prop in Hk. destruct Hk as (Ho & Hr).
+    cbn [e_ops e_st]. split; [exact Hr|]. destruct o; try discriminate. cbn [bufop_apply fst set_hist g_hist].
+    apply is_prefix_refl.
+Qed.
+
+Lemma erun_reads_grows c : forall sched s, buffer_ops_ok (e_ops s) = true ->
+  buffer_ops_ok (e_ops (erun c sched s)) = true /\ is_prefix (g_hist (e_st s)) (g_hist (e_st (erun c sched s))).
+Proof.
+  induction sched as [|a l IH]; intros s Hk; [split; [exact Hk|apply is_prefix_refl]|].
+  cbn [erun fold_left]. destruct (estep_reads_grows c s a Hk) as (Hk' & Hp). destruct (IH _ Hk') as (Hk'' & Hp').
+  split; [exact Hk''|]. eapply is_prefix_trans; eassumption.
+Qed.
+
+(* c06_history_monotone: when every buffer statement of the producer's code only reads (the generated obligation), the
+   recorded history is prefix-ordered over time - every configuration, every schedule, wherever the statements run *)
+Theorem history_monotone : forall (ops : list bufop), buffer_ops_ok ops = true ->
+  forall (c : cfg) (n m : nat) (sched : list eactor), HistMonotone c n m ops sched.
+Proof.
+  intros ops Hk c n m sched s1 s2 s3 _. unfold ehist, efinal. rewrite erun_app.
+  apply erun_reads_grows. apply (erun_reads_grows c s1 (einit c n m ops)). exact Hk.
+Qed.
+
+Theorem end_of_run_exactly_once_reads : forall (c : cfg),
+  c_p c = RecThenPub -> c_s c = SubThenSnap -> c_f c = FilterGtLast -> c_cap c = None ->
+  forall (ops : list bufop), buffer_ops_ok ops = true ->
+  forall (n m : nat) (sched : list eactor) (i : nat) (x : sub),
+  nth_error (g_subs (e_st (efinal c n m ops sched))) i = Some x -> attached x = true ->
+  ExactlyOnce c n (e_st (efinal c n m ops sched)) x.
+Proof.
+  intros c H1 H2 H3 H4 ops Hk n m sched i x. apply end_of_run_exactly_once; try assumption.
+  apply history_monotone. exact Hk.
+Qed.
+
+Theorem end_of_run_kinds : forall (l : list kind_orders), wf_kinds l = true ->
+  forall (ops : list bufop), buffer_ops_ok ops = true ->
+  forall (k : kind_orders), In k l ->
+  forall (n m : nat) (sched : list eactor) (i : nat) (x : sub),
+  nth_error (g_subs (e_st (efinal (kind_cfg k None) n m ops sched))) i = Some x -> attached x = true ->
+  ExactlyOnce (kind_cfg k None) n (e_st (efinal (kind_cfg k None) n m ops sched)) x.
+Proof.
+  intros l Hl ops Hk k Hin. rewrite (cfg_ok_eq _ (wf_kinds_in l k Hl Hin) eq_refl).
+  exact (end_of_run_exactly_once_reads okc eq_refl eq_refl eq_refl eq_refl ops Hk).
+Qed.
+
+(* take-and-restore around the snapshot write (seed C06-4): the 3 frames are recorded and published, the buffer is moved
+   out, a subscriber attaches (subscribe, snapshot: EMPTY history, nothing live any more), the buffer is put back *)
+Definition take_restore_ops : list bufop := [BTake; BRead; BRestore].
+Definition take_restore_sched : list eactor :=
+  repeat (EA AP) 6 ++ [EB; EA (AS 0); EA (AS 0); EB; EB; EA (AS 0)].
+Lemma take_restore_witness :
+  g_prog (e_st (efinal okc 3 1 take_restore_ops take_restore_sched)) = []
+  /\ g_hist (e_st (efinal okc 3 1 take_restore_ops take_restore_sched)) = [0; 1; 2]
+  /\ e_ops (efinal okc 3 1 take_restore_ops take_restore_sched) = []
+  /\ map attached (g_subs (e_st (efinal okc 3 1 take_restore_ops take_restore_sched))) = [true]
+  /\ map (delivered okc) (g_subs (e_st (efinal okc 3 1 take_restore_ops take_restore_sched))) = [[]].
+Proof. vm_compute. repeat split. Qed.
+Lemma take_restore_not_monotone : ~ HistMonotone okc 3 1 take_restore_ops take_restore_sched.
+Proof.
+  intros H. specialize (H (repeat (EA AP) 6) [EB] [EA (AS 0); EA (AS 0); EB; EB; EA (AS 0)] eq_refl).
+  destruct H as (ext & H). vm_compute in H. discriminate H.
+Qed.
+Lemma take_restore_refuted :
+  ~ HistMonotone okc 3 1 take_restore_ops take_restore_sched
+  /\ g_prog (e_st (efinal okc 3 1 take_restore_ops take_restore_sched)) = []
+  /\ g_hist (e_st (efinal okc 3 1 take_restore_ops take_restore_sched)) = [0; 1; 2]
+  /\ map attached (g_subs (e_st (efinal okc 3 1 take_restore_ops take_restore_sched))) = [true]
+  /\ map (delivered okc) (g_subs (e_st (efinal okc 3 1 take_restore_ops take_restore_sched))) = [[]].
+Proof.
+  split; [exact take_restore_not_monotone|]. destruct take_restore_witness as (A & B & _ & D & E). repeat split; assumption.
+Qed.
+(* the same schedule with today's statement (read under the lock): everything arrives *)
+Lemma read_only_same_schedule :
+  buffer_ops_ok [BRead] = true
+  /\ map (delivered okc) (g_subs (e_st (efinal okc 3 1 [BRead] take_restore_sched))) = [[0; 1; 2]].
+Proof. vm_compute. split; reflexivity. Qed.
+(* each of the other non-reading statements breaks it as well: clear / truncate before a late attach *)
+Lemma clear_truncate_refuted :
+  map (delivered okc) (g_subs (e_st (efinal okc 3 1 [BClear] (repeat (EA AP) 6 ++ [EB; EA (AS 0); EA (AS 0)])))) = [[]]
+  /\ map (delivered okc) (g_subs (e_st (efinal okc 3 1 [BTruncate 1] (repeat (EA AP) 6 ++ [EB; EA (AS 0); EA (AS 0)])))) = [[0]].
+Proof. vm_compute. split; reflexivity. Qed.
+
+(* ---------- the thread kind's history source (replay_events = sidecar if try_replay accepts it, else the log) ---------- *)
+Lemma sidecar_exact_seq : forall l e, sidecar_ok SeqExact e l = true -> l = seq e (length l).
+Proof.
+  induction l as [|k r IH]; intros e H; [reflexivity|]. cbn [sidecar_ok] in H. apply andb_prop in H. destruct H as (Hk & Hr).
+  apply Nat.eqb_eq in Hk. subst k. cbn [length seq]. f_equal. apply IH, Hr.
+Qed.
+
+Lemma replay_ok_inv r : replay_ok r = true -> r_first r = 0 /\ r_cmp r = SeqExact.
+Proof.
+  unfold replay_ok. intros H. apply andb_prop in H. destruct H as (Hf & Hc). apply Nat.eqb_eq in Hf.
+  destruct (r_cmp r); [auto|discriminate].
+Qed.
+
+(* whatever the sidecar holds: the history handed to a thread subscriber is the truth log or a gap-free run from seq 0 *)
+Theorem thread_history_from_zero : forall (r : replay_check), replay_ok r = true ->
+  forall (side : option (list nat)) (log : list nat),
+  thread_history r side log = log \/ exists k, thread_history r side log = seq 0 k /\ side = Some (seq 0 k).
+Proof.
+  intros r Hr side log. destruct (replay_ok_inv r Hr) as (Hf & Hc). unfold thread_history.
+  destruct side as [[|k l]|]; [left; reflexivity| |left; reflexivity].
+  rewrite Hf, Hc. destruct (sidecar_ok SeqExact 0 (k :: l)) eqn:E; [|left; reflexivity].
+  right. exists (length (k :: l)). rewrite <- (sidecar_exact_seq _ _ E). split; reflexivity.
+Qed.
+
+(* cache loss (deletion) at any moment j of a thread that has n frames now: the subscriber's history is the whole log *)
+Theorem thread_history_after_loss : forall (r : replay_check), replay_ok r = true ->
+  forall n j, j <= n -> thread_history r (sidecar_after_loss n j) (seq 0 n) = seq 0 n.
+Proof.
+  intros r Hr n j Hj. destruct (thread_history_from_zero r Hr (sidecar_after_loss n j) (seq 0 n)) as [E|(k & E & Hs)]; [exact E|].
+  rewrite E. unfold sidecar_after_loss in Hs. destruct (Nat.ltb_spec j n) as [Hlt|Hge]; [|discriminate].
+  inversion Hs as [Hq]. assert (length (seq j (n - j)) = length (seq 0 k)) as Hl by (rewrite Hq; reflexivity).
+  rewrite !seq_length in Hl. subst k. destruct (n - j) as [|d] eqn:Ed; [lia|]. cbn [seq] in Hq. injection Hq as Hj0 _.
+  f_equal; lia.
+Qed.
+
+(* seed C06-5: `seq < expected` accepts the truncated / holed sidecar *)
+Definition weak_replay : replay_check := {| r_first := 0; r_cmp := SeqIncreasing |}.
+Definition code_replay : replay_check := {| r_first := 0; r_cmp := SeqExact |}.
+Lemma weak_replay_refuted :
+  thread_history weak_replay (sidecar_after_loss 10 7) (seq 0 10) = [7; 8; 9]
+  /\ thread_history weak_replay (Some [0; 1; 3; 4]) (seq 0 5) = [0; 1; 3; 4]
+  /\ thread_history code_replay (sidecar_after_loss 10 7) (seq 0 10) = seq 0 10
+  /\ thread_history code_replay (Some [0; 1; 3; 4]) (seq 0 5) = seq 0 5.
+Proof. vm_compute. repeat split. Qed.
